@@ -67,6 +67,14 @@ void h_ev_slice_empty(void){ LOCALS; u64 nd = 2;
   ASSERT(ld == 2 && ed == 2, "dim(eval(v)) == dim(v) == 2");
   for (u64 i = 0; i < 2; i++){ ASSERT(ls[i] == ex[i], "lazy shape == NumPy shape (0, d-c)"); ASSERT(es[i] == ls[i], "shape(eval(v)) == shape(v) also for a zero extent"); }
   OBS(r); OBS(es[0]); OBS(es[1]); REACHED(); }
+/* 0-d result: eval(reshape(a (1,1), ())) has dim 0 and holds a[0,0] */
+void h_ev_reshape0(void){ u64 shape[2] = {1, 1}, idx[4] = {0}, ls[4] = {7,7,7,7}, es[4] = {7,7,7,7}, ld = 9, ed = 9; u32 data[CELLS] = {0}, p[16] = {0}, lv = 0, ev = 0; u64 nd = 0;
+  data[0] = in_any32();
+  int r = KN(k_ev_reshape0)(ARGS);
+  ASSERT(r == 1, "both sides exist (NumPy accepts the empty target for a single element)");
+  ASSERT(ld == 0 && ed == 0, "dim(eval(v)) == dim(v) == 0");
+  ASSERT(lv == data[0] && ev == lv, "the 0-d result holds the element");
+  OBS(r); OBS(ev); REACHED(); }
 #if RES == 1 || RES == 2
 FRONT(transpose) FRONT(flip)
 #endif
